@@ -127,3 +127,85 @@ def region_lines(basename, funcname):
                         n_fin += 1
             out["body"] = {s.lineno for s in ast.walk(node) if isinstance(s, ast.stmt) and s is not node}
     return out
+
+
+class FaultInjected(Exception):
+    """Raised by LineFaults at the k-th eligible statement start."""
+
+
+class LineFaults:
+    """Source-free failpoints: raise FaultInjected at the k-th statement start
+    inside keyword-function bodies of the given repo files.
+
+    Excluded sites (computed from the AST): `try:` header lines and bodies of
+    `finally` - CPython fires a LINE event on the `try:` line BETWEEN a
+    push_scope() call and the protected region, where no real exception can
+    originate; injecting there manufactures leaks the program cannot have."""
+    TOOL = 2
+
+    def __init__(self, basenames=("_validators.py", "_legacy_validators.py")):
+        import ast
+        self.eligible = {}
+        self.excluded = {}
+        for base in basenames:
+            path = os.path.join(repo_dir(), "jsonschema", base)
+            with open(path) as f:
+                tree = ast.parse(f.read())
+            ok, bad = set(), set()
+            for fn in ast.walk(tree):
+                if not isinstance(fn, (ast.FunctionDef, ast.AsyncFunctionDef)):
+                    continue
+                for node in ast.walk(fn):
+                    if isinstance(node, ast.stmt) and node is not fn:
+                        ok.add(node.lineno)
+                for node in ast.walk(fn):
+                    if isinstance(node, ast.Try):
+                        bad.add(node.lineno)
+                        for s in node.finalbody:
+                            for sub in ast.walk(s):
+                                if hasattr(sub, "lineno"):
+                                    bad.add(sub.lineno)
+            self.eligible[os.path.realpath(path)] = ok - bad
+            self.excluded[base] = sorted(bad & ok)
+        self.count = 0
+        self.target = None
+        self.fired = None
+        self._files = {}
+        self._active = False
+
+    def _cb(self, code, line):
+        lines = self._files.get(code)
+        if lines is None:
+            lines = self.eligible.get(os.path.realpath(code.co_filename), False) if code.co_filename[:1] != "<" else False
+            self._files[code] = lines
+        if lines is False or line not in lines:
+            return mon.DISABLE
+        self.count += 1
+        if self.target is not None and self.count == self.target:
+            self.fired = (os.path.basename(code.co_filename), code.co_qualname, line)
+            self.target = None
+            raise FaultInjected("%s:%s:%d" % self.fired)
+
+    def start(self):
+        mon.use_tool_id(self.TOOL, "vf-faults")
+        mon.register_callback(self.TOOL, mon.events.LINE, self._cb)
+        mon.set_events(self.TOOL, mon.events.LINE)
+        self._active = True
+
+    def stop(self):
+        if self._active:
+            mon.set_events(self.TOOL, 0)
+            mon.register_callback(self.TOOL, mon.events.LINE, None)
+            mon.free_tool_id(self.TOOL)
+            self._active = False
+
+    def arm(self, k):
+        self.count = 0
+        self.target = k
+        self.fired = None
+
+    def disarm(self):
+        self.target = None
+        n = self.count
+        self.count = 0
+        return n
